@@ -43,7 +43,26 @@ macro_rules! all_types {
     };
 }
 
+macro_rules! unpin_rows {
+    ($t:ty, $u:literal) => {
+        println!("Sender {} unpin {}", $u, impls!(Sender<$t>: Unpin));
+        println!("AsyncSender {} unpin {}", $u, impls!(AsyncSender<$t>: Unpin));
+        println!("Receiver {} unpin {}", $u, impls!(Receiver<$t>: Unpin));
+        println!("AsyncReceiver {} unpin {}", $u, impls!(AsyncReceiver<$t>: Unpin));
+        println!("SendFuture {} unpin {}", $u, impls!(SendFuture<'static, $t>: Unpin));
+        println!("ReceiveFuture {} unpin {}", $u, impls!(ReceiveFuture<'static, $t>: Unpin));
+        println!("ReceiveStream {} unpin {}", $u, impls!(ReceiveStream<'static, $t>: Unpin));
+    };
+}
+
 fn main() {
+    // `probes unpin`: is each type `Unpin`, for a T that is (u8) and a T that is not (PhantomPinned)?
+    if std::env::args().nth(1).as_deref() == Some("unpin") {
+        assert!(impls!(u8: Unpin) && !impls!(std::marker::PhantomPinned: Unpin));
+        unpin_rows!(u8, true);
+        unpin_rows!(std::marker::PhantomPinned, false);
+        return;
+    }
     // sanity of the four witnesses themselves
     assert!(impls!(u8: Send) && impls!(u8: Sync));
     assert!(impls!(Cell<u8>: Send) && !impls!(Cell<u8>: Sync));
